@@ -12,10 +12,18 @@ CLAIMED = {
          'A-STR (lower / whitespace split uninterpreted), adversarial plugin hooks, HttpParser.build used through its field-emission contract (instances for the hop-by-hop names), connect_upstream via contract'),
  'C10': ('4.C10', 'C05 bookkeeping + shutdown(): client socket closed exactly once and plugin close hook exactly once on all exits; received descriptor closed exactly once',
          'socket.close releases the descriptor (kernel tables not modelled); TLS unwrap branch not modelled; _flush termination not proved; F20 carved out'),
+ 'C11': ('4.C11', 'reduced claim: the verification parameters handed to ssl for the upstream handshake (verify_mode, check_hostname, cafile, server_hostname) and the SAN kind handed to openssl, as postconditions with a ghost handshake record',
+         'E-SSL: wrap_socket/openssl enforce what they are given; handshake, chain building, expiry, issued leaf content and the certificate cache are not covered'),
+ 'C12': ('4.C12', 'ReverseProxy.handle_request: connect only for a route chosen in this call, target host/port (default by scheme), TLS iff https, path replacement, Host rewrite iff option — postconditions over ghost connect/handshake/rebuild records with loop invariants',
+         'regex matching uninterpreted; dynamic routes modelled as returning a Url; Url.from_bytes / HttpParser.build / connect via contracts; one request per connection (F11 open)'),
  'C13': ('4.C13', 'confinement postcondition on the path handed to serve_static_file (ghost log of opened paths) against an independently written inside() predicate',
          'E-PATH (normpath resolves dot segments, no symlinks), serve_static_file via contract'),
  'C16': ('4.C16', 'build() == RFC 6455 spec function for every field combination and every payload length (unbounded ints); parse() inverts it incl. trailing bytes; apply_mask loop invariant',
          'E-CODEC (struct.pack/unpack big-endian; 8-byte form axiomatised by pack/unpack inverse), two xormask lemmas assumed with bounded check, bytes are code points 0..255'),
+ 'C18': ('4.C18', 'per-event contract of EventDispatcher.handle_event/_send/_close_and_delete over a ghost delivery log (channel, message): ack-or-drop on subscribe, at most one ack and removal on unsubscribe, fan-out of exactly this event; _broadcast unrolled for <= 3 subscribers (the property\'s own bound) plus an exhaustive native script sweep',
+         'E-CHAN (send delivers once or raises BrokenPipeError), E-QUEUE FIFO; broadcast bounded to 3 subscribers — that part is bounded, not proved'),
+ 'C19': ('4.C19', 'reduced claim: port write-back slice of Proxy.setup (flags.port is the primary listener\'s port; flags.ports are exactly the other bound ports) for <= 3 additional ports, plus an exhaustive native option-grid sweep of the real ListenerPool.setup + slice + port file',
+         'single listening address; ListenerPool.setup creation order assumed in the proof part (exercised for real in the sweep); accepting endpoints, child processes and execution modes are out of reach'),
  'C20': ('4.C20', 'is_inactive == (no pending output and idle > timeout) as iff-postcondition; last_activity stamped exactly on acted-upon client readiness',
          'E-TIME (monotone mathematical clock); delay bound in loop iterations not seconds; reaper loop covered under C05 (bounded)'),
 }
